@@ -718,6 +718,55 @@ fn exec(case: &W1ACase, ctx: &mut Ctx) {
                 }
             }
         }
+        // test-examples and explain agree on the chain of the same example: when the example passes its match / unit-id
+        // conditions, test-examples lists it with a chain iff explain (whose chain is checked hop by hop against the
+        // live pipeline above) reports a loop or too many hops for it
+        let mut compared = 0;
+        'rules: for r in &result_rules {
+            let Some(route) = result_router.get_route_by_id(&r.id) else { continue };
+            for ex in r.examples.clone().unwrap_or_default() {
+                if compared >= 4 {
+                    break 'rules;
+                }
+                if ex.unit_ids_applied.is_none() {
+                    continue;
+                }
+                compared += 1;
+                let mut one = TestExamplesOutput::default();
+                TestExamplesOutput::test_example(&result_router, &ex, &mut one, &r.id, route.clone(), case.max_hops, case.project_domains.clone());
+                let one = serde_json::to_value(&one).unwrap();
+                let listed = one["first_ten_failures"][&r.id]["failed_examples"].as_array().cloned().unwrap_or_default();
+                if one["error_count"].as_u64().unwrap_or(0) > 0 || (listed.len() == 1 && listed[0]["redirection_loop"].is_null()) {
+                    // the example cannot be turned into a request, or fails on its own conditions: no chain is followed
+                    continue;
+                }
+                let explained = ExplainRequestOutput::create_result_without_project(ExplainRequestInput {
+                    router_config: config.clone(),
+                    example: ex.clone(),
+                    rules: result_rules.clone(),
+                    max_hops: case.max_hops,
+                    project_domains: case.project_domains.clone(),
+                });
+                let Ok(explained) = explained else { continue };
+                let explained = serde_json::to_value(&explained).unwrap();
+                let chain_error = explained["redirection_loop"]["error"].as_str().map(|e| e == "Loop" || e == "TooManyHops").unwrap_or(false);
+                let listed_with_chain = listed.len() == 1 && !listed[0]["redirection_loop"].is_null();
+                if chain_error != listed_with_chain {
+                    problems.push((
+                        "test-examples!=explain".to_string(),
+                        format!(
+                            "rule {} example {}: explain reports chain error {} but test-examples {} the example\n explain chain: {}\n test-examples: {}",
+                            r.id,
+                            serde_json::to_string(&ex).unwrap_or_default(),
+                            explained["redirection_loop"]["error"],
+                            if listed_with_chain { "lists" } else { "does not list" },
+                            explained["redirection_loop"],
+                            one["first_ten_failures"]
+                        ),
+                    ));
+                }
+            }
+        }
         (outs, problems)
     });
     let Some((outs, problems)) = res else { return };
